@@ -392,6 +392,18 @@ def install(w):
     for nm in ("lower", "upper"):
         B["str." + nm] = s_fresh(nm, keep_len=False)
 
+    def s_splitlines(it, f, args, kw, node):
+        use("str.splitlines(): a list of strings whose number is NOT tied to the GraphQL line "
+            "terminators (it also splits on VT, FF, FS, GS, RS, NEL, LS, PS and drops a trailing "
+            "empty line): length unconstrained")
+        from . import codec
+        oid = it.fresh_oid()
+        n = z3.Int(it.namer.fresh("splitlines_len"))
+        it.assume(n >= 0)
+        it.st.lists[oid] = ListObj(n, None, "str", codec.fresh_arrays(it, "str", "sl"))
+        return VList(oid)
+    B["str.splitlines"] = s_splitlines
+
     def s_rjust(it, f, args, kw, node):
         s = f.recv
         wdt = it.as_int(args[0], node)
